@@ -4,6 +4,7 @@ import (
 	"context"
 	"fmt"
 	"sort"
+	"strings"
 	"sync"
 	"sync/atomic"
 	"time"
@@ -141,72 +142,79 @@ var kindNames = []string{"Int64Counter", "Int64UpDownCounter", "Int64Histogram",
 
 func isObservable(kind int) bool { return kind >= 8 }
 
+type scopeID struct{ name, version, schema string }
+
 type inst struct {
 	id, kind, meter int
 	name            string
 	h               any
+	desc, unit      string
+	scope           scopeID
+	bad             bool // a name the SDK rejects (F-C16-2)
 }
 
-func newInst(m metric.Meter, id, kind, k int, name string, icb metric.Int64Callback, fcb metric.Float64Callback) (*inst, error) {
+func newInst(m metric.Meter, id, kind, k int, name, desc string, icb metric.Int64Callback, fcb metric.Float64Callback) (*inst, error) {
 	var h any
 	var err error
+	unit := "By"
+	d, u := metric.WithDescription(desc), metric.WithUnit(unit)
 	switch kind {
 	case 0:
-		h, err = m.Int64Counter(name)
+		h, err = m.Int64Counter(name, d, u)
 	case 1:
-		h, err = m.Int64UpDownCounter(name)
+		h, err = m.Int64UpDownCounter(name, d, u)
 	case 2:
-		h, err = m.Int64Histogram(name)
+		h, err = m.Int64Histogram(name, d, u)
 	case 3:
-		h, err = m.Int64Gauge(name)
+		h, err = m.Int64Gauge(name, d, u)
 	case 4:
-		h, err = m.Float64Counter(name)
+		h, err = m.Float64Counter(name, d, u)
 	case 5:
-		h, err = m.Float64UpDownCounter(name)
+		h, err = m.Float64UpDownCounter(name, d, u)
 	case 6:
-		h, err = m.Float64Histogram(name)
+		h, err = m.Float64Histogram(name, d, u)
 	case 7:
-		h, err = m.Float64Gauge(name)
+		h, err = m.Float64Gauge(name, d, u)
 	case 8:
 		if icb != nil {
-			h, err = m.Int64ObservableCounter(name, metric.WithInt64Callback(icb))
+			h, err = m.Int64ObservableCounter(name, d, u, metric.WithInt64Callback(icb))
 		} else {
-			h, err = m.Int64ObservableCounter(name)
+			h, err = m.Int64ObservableCounter(name, d, u)
 		}
 	case 9:
 		if icb != nil {
-			h, err = m.Int64ObservableUpDownCounter(name, metric.WithInt64Callback(icb))
+			h, err = m.Int64ObservableUpDownCounter(name, d, u, metric.WithInt64Callback(icb))
 		} else {
-			h, err = m.Int64ObservableUpDownCounter(name)
+			h, err = m.Int64ObservableUpDownCounter(name, d, u)
 		}
 	case 10:
 		if icb != nil {
-			h, err = m.Int64ObservableGauge(name, metric.WithInt64Callback(icb))
+			h, err = m.Int64ObservableGauge(name, d, u, metric.WithInt64Callback(icb))
 		} else {
-			h, err = m.Int64ObservableGauge(name)
+			h, err = m.Int64ObservableGauge(name, d, u)
 		}
 	case 11:
 		if fcb != nil {
-			h, err = m.Float64ObservableCounter(name, metric.WithFloat64Callback(fcb))
+			h, err = m.Float64ObservableCounter(name, d, u, metric.WithFloat64Callback(fcb))
 		} else {
-			h, err = m.Float64ObservableCounter(name)
+			h, err = m.Float64ObservableCounter(name, d, u)
 		}
 	case 12:
 		if fcb != nil {
-			h, err = m.Float64ObservableUpDownCounter(name, metric.WithFloat64Callback(fcb))
+			h, err = m.Float64ObservableUpDownCounter(name, d, u, metric.WithFloat64Callback(fcb))
 		} else {
-			h, err = m.Float64ObservableUpDownCounter(name)
+			h, err = m.Float64ObservableUpDownCounter(name, d, u)
 		}
 	case 13:
 		if fcb != nil {
-			h, err = m.Float64ObservableGauge(name, metric.WithFloat64Callback(fcb))
+			h, err = m.Float64ObservableGauge(name, d, u, metric.WithFloat64Callback(fcb))
 		} else {
-			h, err = m.Float64ObservableGauge(name)
+			h, err = m.Float64ObservableGauge(name, d, u)
 		}
 	default:
 		err = fmt.Errorf("bad kind %d", kind)
 	}
-	return &inst{id: id, kind: kind, meter: k, name: name, h: h}, err
+	return &inst{id: id, kind: kind, meter: k, name: name, h: h, desc: desc, unit: unit}, err
 }
 
 const recValue = 5 // every measurement records 5 under its own attribute n=<measurement id>
@@ -273,13 +281,16 @@ type world struct {
 	tsdk      *sdktrace.TracerProvider
 	tinst     atomic.Bool
 
-	mu      sync.Mutex
-	meters  map[int]metric.Meter
-	insts   map[int]*inst
-	regs    map[int]*regH
-	tracers map[int]trace.Tracer
-	notes   []string
-	nextID  atomic.Int64
+	mu       sync.Mutex
+	meters   map[int]metric.Meter
+	insts    map[int]*inst
+	regs     map[int]*regH
+	tracers  map[int]trace.Tracer
+	mscope   map[int]scopeID
+	errhDone bool
+	tscope   map[int]scopeID
+	notes    []string
+	nextID   atomic.Int64
 
 	// further SDKs installed by overlapping installation calls with different provider values
 	moreReaders []*sdkmetric.ManualReader
@@ -287,7 +298,8 @@ type world struct {
 }
 
 func newWorld() *world {
-	w := &world{log: &evlog{}, meters: map[int]metric.Meter{}, insts: map[int]*inst{}, regs: map[int]*regH{}, tracers: map[int]trace.Tracer{}}
+	w := &world{log: &evlog{}, meters: map[int]metric.Meter{}, insts: map[int]*inst{}, regs: map[int]*regH{}, tracers: map[int]trace.Tracer{},
+		mscope: map[int]scopeID{}, tscope: map[int]scopeID{}}
 	// handles obtained from the global API before anything is installed
 	w.mp0 = otel.GetMeterProvider()
 	w.tp0 = otel.GetTracerProvider()
@@ -306,11 +318,38 @@ func (w *world) note(f string, a ...any) {
 	w.mu.Unlock()
 }
 
-func (w *world) opMeter(k int) {
-	m := w.mp0.Meter(fmt.Sprintf("m%d", k))
+// scopeFor: the identity (name, version, schema URL) of the meter / tracer first requested under key k.
+func scopeFor(prefix string, k int, opt bool) scopeID {
+	if !opt {
+		return scopeID{name: fmt.Sprintf("%s%d", prefix, k)}
+	}
+	return scopeID{name: fmt.Sprintf("%s%d", prefix, k), version: fmt.Sprintf("v%d", k), schema: fmt.Sprintf("https://example.invalid/s%d", k)}
+}
+
+// opMeter: key k; same >= 0: request the identity of key `same` again (the handle is kept under k);
+// opt: with version / schema URL / attribute options; via 1: through otel.Meter instead of the provider handle.
+func (w *world) opMeter(k, same int, opt bool, via int) {
+	w.mu.Lock()
+	sc, have := w.mscope[same]
+	w.mu.Unlock()
+	if same < 0 || !have {
+		sc = scopeFor("m", k, opt)
+	}
+	var opts []metric.MeterOption
+	if sc.version != "" {
+		opts = []metric.MeterOption{metric.WithInstrumentationVersion(sc.version), metric.WithSchemaURL(sc.schema),
+			metric.WithInstrumentationAttributes(attribute.String("scope", sc.name))}
+	}
+	var m metric.Meter
+	if via == 1 {
+		m = otel.Meter(sc.name, opts...)
+	} else {
+		m = w.mp0.Meter(sc.name, opts...)
+	}
 	w.mu.Lock()
 	if _, ok := w.meters[k]; !ok {
 		w.meters[k] = m
+		w.mscope[k] = sc
 	}
 	w.mu.Unlock()
 }
@@ -324,12 +363,30 @@ func (w *world) meter(k int) metric.Meter {
 // opInst requests an instrument.  same != nil: the identity (name, kind) of an earlier request on the
 // same meter is requested again.  cb: pass a creation-time callback (observable kinds); its id is the
 // request's id.
-func (w *world) opInst(id, k, kind int, same *inst, cb bool) *inst {
+// badName: names the SDK's validateInstrumentName rejects (1-4) and the longest valid one (5).
+func badName(id, bad int) string {
+	base := fmt.Sprintf("i%d", id)
+	switch bad {
+	case 1:
+		return "1" + base // must start with a letter
+	case 2:
+		return "" // empty
+	case 3:
+		return base + strings.Repeat("a", 256-len(base)) // 256 characters: one too long
+	case 4:
+		return base + " x" // character outside [A-Za-z0-9_.-/]
+	case 5:
+		return base + strings.Repeat("a", 255-len(base)) // 255 characters: the longest valid name
+	}
+	return base
+}
+
+func (w *world) opInst(id, k, kind int, same *inst, cb bool, bad int) *inst {
 	m := w.meter(k)
 	if m == nil {
 		return nil
 	}
-	name := fmt.Sprintf("i%d", id)
+	name := badName(id, bad)
 	if same != nil {
 		name, kind = same.name, same.kind
 	}
@@ -354,12 +411,23 @@ func (w *world) opInst(id, k, kind int, same *inst, cb bool) *inst {
 			w.log.add(evRegCall, id, 0)
 		}
 	}
-	y, err := newInst(m, id, kind, k, name, icb, fcb)
-	if err != nil || y.h == nil {
+	desc := fmt.Sprintf("d%d", id)
+	if same != nil {
+		desc = same.desc
+	}
+	y, err := newInst(m, id, kind, k, name, desc, icb, fcb)
+	if y.h == nil || (err != nil && bad == 0 && same == nil) {
 		w.note("instrument %d kind %d: %v", id, kind, err)
 		return nil
 	}
 	*x = *y
+	x.bad = bad >= 1 && bad <= 4
+	if same != nil {
+		x.bad, x.desc = same.bad, same.desc
+	}
+	w.mu.Lock()
+	x.scope = w.mscope[k]
+	w.mu.Unlock()
 	if h != nil && !h.dup {
 		w.log.add(evRegRet, id, 0)
 	}
@@ -432,9 +500,23 @@ func (w *world) opUnregister(h *regH) {
 	w.log.add(evUnregRet, h.id, 0)
 }
 
-func (w *world) opInstall() {
+func (w *world) opInstall() { w.opInstallV(0) }
+
+// opInstallV: variant 1 passes a provider VALUE of a non-comparable type (around the same SDK); afterwards
+// the global must return exactly the value passed last.
+func (w *world) opInstallV(variant int) {
 	w.log.add(evInstallCall, 0, 0)
-	otel.SetMeterProvider(w.wrapped)
+	if variant == 1 {
+		otel.SetMeterProvider(ncMP{MeterProvider: w.wrapped, pad: []int{1}})
+		if _, ok := otel.GetMeterProvider().(ncMP); !ok {
+			w.note("BAD: GetMeterProvider does not return the provider installed last")
+		}
+	} else {
+		otel.SetMeterProvider(w.wrapped)
+		if otel.GetMeterProvider() != metric.MeterProvider(w.wrapped) {
+			w.note("BAD: GetMeterProvider does not return the provider installed last")
+		}
+	}
 	w.installed.Store(true)
 	w.log.add(evInstallRet, 0, 0)
 }
@@ -449,11 +531,28 @@ func (w *world) opInstallTRaw() {
 	w.tinst.Store(true)
 }
 
-func (w *world) opTracer(t int) {
-	tr := w.tp0.Tracer(fmt.Sprintf("t%d", t))
+func (w *world) opTracer(t, same int, opt bool, via int) {
+	w.mu.Lock()
+	sc, have := w.tscope[same]
+	w.mu.Unlock()
+	if same <= 0 || !have {
+		sc = scopeFor("t", t, opt)
+	}
+	var opts []trace.TracerOption
+	if sc.version != "" {
+		opts = []trace.TracerOption{trace.WithInstrumentationVersion(sc.version), trace.WithSchemaURL(sc.schema),
+			trace.WithInstrumentationAttributes(attribute.String("scope", sc.name))}
+	}
+	var tr trace.Tracer
+	if via == 1 {
+		tr = otel.Tracer(sc.name, opts...)
+	} else {
+		tr = w.tp0.Tracer(sc.name, opts...)
+	}
 	w.log.add(evTracerRet, t, 0)
 	w.mu.Lock()
 	w.tracers[t] = tr
+	w.tscope[t] = sc
 	w.mu.Unlock()
 }
 
@@ -465,12 +564,28 @@ func (w *world) opSpan(n, t int) {
 		return
 	}
 	w.log.add(evSpanCall, t, n)
-	_, sp := tr.Start(context.Background(), fmt.Sprintf("s%d", n))
-	sp.End()
+	if n%3 == 0 {
+		fullSpan(tr, fmt.Sprintf("s%d", n))
+	} else {
+		_, sp := tr.Start(context.Background(), fmt.Sprintf("s%d", n))
+		sp.End()
+	}
 	w.log.add(evSpanRet, n, 0)
 }
 
-func (w *world) opInstallT() {
+func (w *world) opInstallT() { w.opInstallTV(0) }
+
+func (w *world) opInstallTV(variant int) {
+	if variant == 1 {
+		w.log.add(evTInstallCall, 0, 0)
+		otel.SetTracerProvider(ncTP{TracerProvider: w.tsdk, pad: []int{1}})
+		if _, ok := otel.GetTracerProvider().(ncTP); !ok {
+			w.note("BAD: GetTracerProvider does not return the provider installed last")
+		}
+		w.tinst.Store(true)
+		w.log.add(evTInstallRet, 0, 0)
+		return
+	}
 	w.log.add(evTInstallCall, 0, 0)
 	otel.SetTracerProvider(w.tsdk)
 	w.tinst.Store(true)
@@ -610,6 +725,7 @@ func (w *world) finish(res *result) {
 		var bad []string
 		byN, byCB, bad = arrivals(&rm)
 		res.Bad = append(res.Bad, bad...)
+		w.checkIdentities(&rm, res)
 		for _, rd := range w.moreReaders { // whichever SDK won the Once received the measurements
 			var rm2 metricdata.ResourceMetrics
 			if err := rd.Collect(context.Background(), &rm2); err != nil {
@@ -658,6 +774,7 @@ func (w *world) finish(res *result) {
 				spans[s.Name()]++
 			}
 		}
+		w.checkSpanScopes(evs, res)
 	}
 	for _, e := range evs {
 		res.Events = append(res.Events, [3]int{e.tag, e.a, e.b})
@@ -677,5 +794,11 @@ func (w *world) finish(res *result) {
 	// creation-time callbacks are registered inside the SDK's instrument constructor, out of sight of the
 	// recording wrapper: one SdkReg event per run in the final Collect
 	res.Events = append(res.Events, sdkCreation...)
-	res.Notes = append(res.Notes, w.notes...)
+	for _, n := range w.notes {
+		if strings.HasPrefix(n, "BAD: ") {
+			res.Bad = append(res.Bad, n[5:])
+		} else {
+			res.Notes = append(res.Notes, n)
+		}
+	}
 }
